@@ -165,6 +165,19 @@ def check_partitions(rep, prog):
     rep.ob('R-KEY', 'Numerics.cached_part', okc, 'the cached value is list(part(x, n, minval, maxval))', prog.mod(NUM).rel, cp.lineno, what='the cache holds the partitions of its own arguments')
 
 
+def check_new_memos(rep, prog):
+    """every function of the low-pass module that stores into a module-level dictionary is a memo: its key must determine the value"""
+    from rules import c20
+    m = prog.mod(LP)
+    dicts = {k for k, vals in m.toplevel.items() if any(isinstance(v, ast.Dict) or (isinstance(v, ast.Call) and dotted(v.func) in ('dict', 'collections.OrderedDict')) for v in vals)}
+    for q, fn in sorted(m.funcs.items()):
+        if '.' in q:
+            continue
+        names = {ast.unparse(n.targets[0].value) for n in own_nodes(fn) if isinstance(n, ast.Assign) and isinstance(n.targets[0], ast.Subscript) and isinstance(n.targets[0].value, ast.Name)}
+        for cname in sorted(names & dicts):
+            c20.rule_key_full(rep, prog, LP, q, cname)
+
+
 def check_projection(rep, prog):
     m = prog.mod(LP)
     fn = prog.func(LP, 'projection_inbreeding')
@@ -199,6 +212,16 @@ def check_projection(rep, prog):
         tgt = ast.unparse(lp.target)
         ok = is_comb and args == ['partition', 'k // 2'] and body == ['result[sum(%s)] += 1' % tgt]
         det = 'iterates %s%s; body %s' % ('(' + '>'.join(chain) + ') ' if chain else '', ast.unparse(src), body)
+    if not loops:
+        # a vectorised count: `result[index array] += 1` applies the increment once per DISTINCT index (numpy buffers the update of a
+        # fancy-indexed target), so choices with the same allele sum are counted once; numpy.add.at / numpy.bincount keep the multiplicity
+        for n in own_nodes(fn):
+            if isinstance(n, ast.AugAssign) and isinstance(n.target, ast.Subscript) and isinstance(n.target.value, ast.Name) and n.target.value.id == 'result':
+                ix = n.target.slice
+                arrayish = isinstance(ix, ast.Call) or (isinstance(ix, ast.Name) and any(
+                    isinstance(s_, ast.Assign) and len(s_.targets) == 1 and isinstance(s_.targets[0], ast.Name) and s_.targets[0].id == ix.id and isinstance(s_.value, ast.Call) for s_ in own_nodes(fn)))
+                if arrayish:
+                    det = '`%s` increments once per distinct index: combinations with equal allele sums lose their multiplicity (numpy.add.at or bincount would keep it)' % ast.unparse(n)
     rep.ob('R-MULT', 'projection_inbreeding combinations', ok, det, m.rel, fn.lineno,
            what='each choice of k//2 individuals is counted once, with multiplicity (no set / unique), at the index of its allele sum')
     init = [s for s in own_nodes(fn) if isinstance(s, ast.Assign) and ast.unparse(s.targets[0]) == 'result']
@@ -325,9 +348,35 @@ def check_nocall(rep, prog):
     ok = False
     det = ''
     try:
-        lp = [n for n in own_nodes(fn) if isinstance(n, ast.For)][0]
-        rng = lp.iter
         T = Translator({}, call_hook=lambda T_, e, f: (T_.tr(e.args[0]) if f == 'int' else Rat.atom('ceil(%s)' % T_.tr(e.args[0]).canon()) if f == 'math.ceil' else Rat.atom('FLOOR[%s]' % ast.unparse(e)) if False else None))
+        loops_ = [n for n in own_nodes(fn) if isinstance(n, ast.For)]
+        if not loops_:
+            # the tail through the binomial survival function of scipy.stats: binom.sf(k, n, p) = P(X > k), so the tail that starts
+            # AT m = ceil(nsub/2) - 1 is sf(m - 1, N - 1, 1 - c0)
+            from sa.extract import single_assignments, inline
+            sing_ = single_assignments(fn)
+            sfs = [c for c in own_nodes(fn) if isinstance(c, ast.Call) and (dotted(c.func) or '').endswith('binom.sf') and len(c.args) == 3 and not c.keywords]
+            if len(sfs) == 1:
+                from sa.srcmodel import clone as _cl
+
+                class R0(ast.NodeTransformer):
+                    def visit_BinOp(self, n):
+                        self.generic_visit(n)
+                        if isinstance(n.op, ast.FloorDiv) and ast.unparse(n) == 'n_sequenced // 2':
+                            return ast.Name(id='N', ctx=ast.Load())
+                        return n
+                k_, n_, p_ = [R0().visit(_cl(inline(a, sing_))) for a in sfs[0].args]
+                okk = T.tr(k_).equals(Rat.atom('ceil(%s)' % parse_expr('n_subsampling/2').canon()) - Rat.const(2))
+                okn = T.tr(n_).equals(parse_expr('N - 1'))
+                okp_ = ast.unparse(p_) in ('numpy.sum(coverage_distribution[1][1:])', '1 - coverage_distribution[1][0]', '1.0 - coverage_distribution[1][0]')
+                rets_ = returns(fn)
+                okv = len(rets_) == 1 and inline(rets_[0].value, sing_) is not None and ast.unparse(inline(rets_[0].value, sing_)) == ast.unparse(inline(sfs[0], sing_))
+                rep.ob('R-ALG', 'probability_enough_individuals_covered tail', okk and okn and okp_ and okv,
+                       'binom.sf(%s, %s, %s) = P(X > %s): the tail must start at ceil(nsub/2) - 1, i.e. the first argument must be ceil(nsub/2) - 2' % (ast.unparse(k_), ast.unparse(n_), ast.unparse(p_), ast.unparse(k_)),
+                       m.rel, fn.lineno, what='sum_{j=ceil(nsub/2)-1}^{N-1} C(N-1,j) c0^(N-1-j) (1-c0)^j over the other N-1 individuals (exponents add to N-1, upper limit N-1 inclusive)')
+                raise StopIteration
+        lp = loops_[0]
+        rng = lp.iter
 
         def fl(e):
             # n_sequenced // 2 -> atom N
@@ -351,8 +400,11 @@ def check_nocall(rep, prog):
         det = 'range %s..%s (exclusive); term %s' % (lo.canon(), hi.canon(), term.canon())
     except (AlgebraError, IndexError, AttributeError) as e:
         det = 'not recognised: %s' % e
-    rep.ob('R-ALG', 'probability_enough_individuals_covered tail', ok, det, m.rel, fn.lineno,
-           what='sum_{j=ceil(nsub/2)-1}^{N-1} C(N-1,j) c0^(N-1-j) (1-c0)^j over the other N-1 individuals (exponents add to N-1, upper limit N-1 inclusive)')
+    except StopIteration:
+        det = None
+    if det is not None:
+        rep.ob('R-ALG', 'probability_enough_individuals_covered tail', ok, det, m.rel, fn.lineno,
+               what='sum_{j=ceil(nsub/2)-1}^{N-1} C(N-1,j) c0^(N-1-j) (1-c0)^j over the other N-1 individuals (exponents add to N-1, upper limit N-1 inclusive)')
 
 
 PARAM_ROLE = {'coverage_distribution': 'cov', 'n_sequenced': 'seq', 'n_subsampling': 'sub', 'Fx': 'F', 'F': 'F', 'nsub': 'sub', 'nseq': 'seq', 'cov_dist': 'cov', 'sim_threshold': 'thr', 'nsim': 'nsim',
@@ -520,6 +572,7 @@ def check_lowpass_func(rep, prog):
 
 def run(rep, prog, tier):
     check_partitions(rep, prog)
+    check_new_memos(rep, prog)
     check_projection(rep, prog)
     check_calling_error(rep, prog)
     check_nocall(rep, prog)
